@@ -127,13 +127,52 @@ def flows(ctx, f, enum_name, variant, pos, callees, uses_ok=False):
     return False
 
 
+def is_payload_of(x, enum_name, variant, pos):
+    """x is the payload node of `enum_name::variant` at position / field `pos` (or-patterns: listed under `also`)."""
+    if not (isinstance(x, dict) and x.get('k') == 'payload'):
+        return False
+    full = f'{enum_name}::{variant}'
+
+    def hit(d):
+        vn = str(d.get('variant', '')).replace(' ', '')
+        return (vn.endswith(full) or vn == f'Self::{variant}' or vn == variant) and (str(d.get('field')) == str(pos) or str(d.get('pos')) == str(pos))
+    return hit(x) or any(hit(d) for d in x.get('also', []) or [])
+
+
+def flows_special(ctx, f, enum_name, variant, pos, callees, uses_ok=False):
+    """Specialised form of `flows`: the function (inlined view: helpers such as `type_arguments()` expanded) is partially
+    evaluated under "the enum-typed parameter is `variant`" (vlib/special.py); the payload at `pos` reaches a call to one of
+    `callees` when the specialised receiver/argument of such a call, made on a path the assumption does not exclude, contains
+    that payload.  No match over the enum has to be written in f itself."""
+    from . import special
+    v = ctx.x(f)
+    param = next((p['name'] for p in f['params'] if enum_name in str(p.get('ty') or '')), None)
+    if param is None and (f.get('self_ty') or '').split('<')[0] == enum_name:
+        param = 'self'
+    if param is None:
+        return False
+    specs = [special.EnumSpec(param, variant)]
+    for c in v['calls']:
+        nm = str(c.get('f') or '').split('::')[-1]
+        if nm not in callees and not (uses_ok and nm):
+            continue
+        if not special.frames_hold(v, c.get('guard', []), specs):
+            continue
+        vals = list(c.get('args', [])) + ([c['recv']] if c.get('recv') is not None else [])
+        for val in vals:
+            if not isinstance(val, dict):
+                continue
+            for alt in special.evs(val, specs)[:12]:
+                if any(is_payload_of(x, enum_name, variant, pos) for x in vt.walk(alt)):
+                    return True
+    return False
+
+
 def check_recursion(rep, rule, ctx, f, enum_name, callees, label, needle='RustType', uses_ok=False):
     """Every payload-carrying variant of `enum_name` has an explicit arm in f's match over it, in which every
     type-carrying payload is bound and handed to one of `callees` (or, with uses_ok, at least used)."""
     pp = payload_positions(ctx, enum_name, needle)
     ms = find_matches(f, enum_name)
-    if not ms:
-        raise core.Incomplete(f"{f['qual']}: match over {enum_name} not found")
     site = {'file': f['file'], 'line': f['line']}
     n = 0
     for variant, (positions, field_names, kind) in pp.items():
@@ -145,7 +184,16 @@ def check_recursion(rep, rule, ctx, f, enum_name, callees, label, needle='RustTy
                     arms.append(a)
         n += 1
         if not arms:
-            rep.fail(rule, key, f"{f['qual']} has no arm for {enum_name}::{variant} (it falls into the catch-all): the types inside it are never visited", site)
+            # no arm of its own in f: the variant may be handled through a helper that sorts the payloads out (asked of the
+            # specialised, inlined function)
+            missing = [pos for pos in positions if not flows_special(ctx, f, enum_name, variant, pos, callees, uses_ok)]
+            if not missing:
+                rep.ok(rule, key, 'every type payload visited (through a helper; specialised view)', site)
+                continue
+            if not ms:
+                rep.fail(rule, key, f"{f['qual']}: the payload(s) {missing} of {enum_name}::{variant} do not reach {'/'.join(callees) or 'any use'} on the paths taken for that variant: the types inside it are never visited", site)
+            else:
+                rep.fail(rule, key, f"{f['qual']} has no arm for {enum_name}::{variant} (it falls into the catch-all): the types inside it are never visited", site)
             continue
         a = arms[0]
         problems = []
